@@ -44,6 +44,7 @@ def run_one(scen, rundir, hook=True):
         env.update(MPIRE_VERIF='1', MPIRE_VERIF_HOOK='mpire_verif_hook')
     else:
         env.pop('MPIRE_VERIF', None)
+        env.pop('MPIRE_VERIF_DIR', None)          # no event files either: the user functions log nothing
     budget = scen.get('budget', 60)
     t0 = time.time()
     with open(os.path.join(rundir, 'stdout'), 'w') as so, open(os.path.join(rundir, 'stderr'), 'w') as se:
